@@ -418,11 +418,16 @@ func InjectionPool(base *Scenario, begin int, b *Builder, view *View, h int64, r
 	pool[len(pool)-1].Recheck = true
 	// queries
 	// queries: every path in both tiers (a read-only handler that writes is as likely in one path as in another)
-	qhs := []int64{0, h - 1}
+	// heights: latest (0 and by number), the one before (what it holds may differ from the latest), and in the full pool
+	// also older ones, the executing one and heights that do not exist
+	qhs := []int64{0, h - 1, h - 2}
 	if full {
-		qhs = []int64{0, h - 1, h, h + 1, -1}
+		qhs = []int64{0, h - 1, h - 2, h - 3, 1, h, h + 1, -1}
 	}
 	for _, qh := range qhs {
+		if qh < -1 || (qh == 1 && h <= 4) {
+			continue
+		}
 		pool = append(pool, Op{Kind: "query", Path: "account", Data: fmt.Sprintf("%x", kr.Addr(4)), QH: qh})
 		pool = append(pool, Op{Kind: "query", Path: "delegatee", Data: fmt.Sprintf("%x", kr.Addr(1)), QH: qh})
 		pool = append(pool, Op{Kind: "query", Path: "reward", Data: fmt.Sprintf("%x", kr.Addr(1)), QH: qh})
@@ -662,6 +667,9 @@ func IsolationVariants(base *Scenario, rootA string, rng *rand.Rand, budget int,
 				}
 				// category of the injected call: what it is, not whom it names
 				cat := p.Kind + ":" + p.Path
+				if p.Kind == "query" && p.QH > 0 && p.QH < h-1 {
+					cat += ":past" // a height before the latest committed one
+				}
 				if p.Kind == "check" {
 					cat = "check:" + p.Tag
 					if i := strings.Index(p.Tag, "->"); i > 0 {
